@@ -23,6 +23,7 @@ import itertools
 import json
 import os
 import random
+import time
 from collections import Counter
 from typing import Any
 
@@ -825,12 +826,12 @@ class IdentityRun:
 			calls = frame['calls']
 			i = len(calls)
 			at = type(order[i]).__name__ if i < len(order) else '?'
-			bad = first_misaligned(order, expect, calls, frame['id'])
+			bad = first_misaligned(order, expect, calls, frame['id']) or restable(order, expect, root)
 			return (f'exec-raises:{canon_exc(e).split(":")[0]}:{bad[0] if bad else at}', f'exec raised {canon_exc(e)} after {i} handler calls; {bad[1] if bad else ""}')
 		finally:
 			self.frames.pop()
 		calls = frame['calls']
-		bad = first_misaligned(order, expect, calls, frame['id'])
+		bad = first_misaligned(order, expect, calls, frame['id']) or restable(order, expect, root)
 		if bad:
 			return bad
 		if len(calls) != len(order):
@@ -845,6 +846,27 @@ class IdentityRun:
 
 def identity_oracle(root: Any) -> tuple[str, str] | None:
 	return IdentityRun().check(root)
+
+
+def restable(order: list[Any], expect: list[dict[str, Any]], root: Any) -> tuple[str, str] | None:
+	"""The property walk repeated after the run must see the same nodes: what a property yields may not depend on what the
+	handlers (and the services they call) did in between — flattening and event building read it at different times."""
+	try:
+		order2, expect2 = spec_walk(root)
+	except Exception as e:  # noqa: BLE001
+		return (f'getter-raises-after-run:{canon_exc(e)}', f'a property getter raised {canon_exc(e)} when re-read after the run')
+	for i, (n, ev) in enumerate(zip(order, expect)):
+		if i >= len(order2) or order2[i].classification != n.classification or order2[i] != n or expect2[i] != ev:
+			# the first differing position is a child of the node whose property changed: name that owner
+			for m, ev_m in zip(order, expect):
+				for k, v in ev_m.items():
+					now = getattr(m, k)
+					if (len(now) if isinstance(now, list) else 1) != (len(v) if isinstance(v, list) else 1):
+						return (f'unstable-prop:{type(m).__name__}.{k}', f'{type(m).__name__}.{k} yielded {len(v) if isinstance(v, list) else 1} node(s) before the run and {len(now) if isinstance(now, list) else 1} after it')
+			return (f'unstable-tree:{type(n).__name__}', f'the property walk differs after the run at position {i} ({type(n).__name__})')
+	if len(order2) != len(order):
+		return (f'unstable-tree:{type(root).__name__}', f'the property walk visits {len(order)} nodes before and {len(order2)} after the run')
+	return None
 
 
 def first_misaligned(order: list[Any], expect: list[dict[str, Any]], calls: list[tuple[Any, dict[str, Any]]], run_id: int | None = None) -> tuple[str, str] | None:
@@ -1045,6 +1067,159 @@ def search_identity(ctx: Ctx, real_descs: list[dict[str, Any]], gen_descs: list[
 	return res
 
 
+class SemanticRun(IdentityRun):
+	"""Identity-valued run whose handlers also use the semantic service the production handlers use:
+	`Reflections.type_of(node)` on every node (its errors are not this property's business and are swallowed)."""
+
+	def __init__(self, refs: Any, hist: Counter[str]) -> None:
+		super().__init__()
+		self.refs = refs
+		self.hist = hist
+
+	def fb(self, node: Any, **kw: Any) -> tuple[Any, int, int]:
+		from rogw.tranp.errors import Errors
+		try:
+			self.refs.type_of(node)
+			self.hist['type_of resolved'] += 1
+		except Errors.Error:
+			self.hist['type_of raised Errors.*'] += 1
+		except Exception as e:  # noqa: BLE001
+			self.hist[f'type_of raised {type(e).__name__}'] += 1
+		return super().fb(node, **kw)
+
+
+def generic_program(rng: random.Random) -> str:
+	"""Semantically valid programs around generic base classes whose template-typed attributes are read in subclasses
+	(through inheritance chains of varying depth, several families per program)."""
+	out = ['from typing import Generic, TypeVar', '', "T = TypeVar('T')", "T2 = TypeVar('T2')", '']
+	bound = ['int', 'str', 'float', 'bool']
+	for f in range(rng.randint(2, 4)):
+		two = rng.random() < 0.3
+		attrs = [f'val{f}_{i}' for i in range(rng.randint(1, 3))]
+		out.append(f"class Base{f}(Generic[{'T, T2' if two else 'T'}]):")
+		for a in attrs:
+			out.append(f'\t{a}: T')
+		if two:
+			out.append(f'\tsec{f}: T2')
+		out.append(f'\tplain{f}: int')
+		out.append(f"\tdef __init__(self, v: T{', w: T2' if two else ''}) -> None:")
+		for a in attrs:
+			out.append(f'\t\tself.{a} = v')
+		if two:
+			out.append(f'\t\tself.sec{f} = w')
+		out.append(f'\t\tself.plain{f} = 0')
+		out.append(f'\tdef own{f}(self) -> T:')
+		out.append(f'\t\treturn self.{attrs[0]}')
+		out.append('')
+		if rng.random() < 0.5:
+			out.append(f'class Other{f}:')
+			out.append(f'\tdef other{f}(self) -> int:')
+			out.append('\t\treturn 1')
+			out.append('')
+		b = rng.choice(bound)
+		b2 = rng.choice(bound)
+		prev = f"Base{f}[{b}{', ' + b2 if two else ''}]"
+		for j in range(rng.randint(0, 3)):
+			name = f'Mid{f}_{j}'
+			if rng.random() < 0.5:
+				out.append(f'class {name}({prev}): ...')
+			else:
+				out.append(f'class {name}({prev}):')
+				out.append(f'\tdef mid{f}_{j}(self) -> {b}:')
+				out.append(f'\t\treturn self.{rng.choice(attrs)}')
+			out.append('')
+			prev = name
+		for k in range(rng.randint(1, 3)):
+			name = f'Sub{f}_{k}'
+			extra = f', Other{f}' if f'class Other{f}:' in out and rng.random() < 0.5 else ''
+			out.append(f'class {name}({prev}{extra}):')
+			for m in range(rng.randint(1, 3)):
+				a = rng.choice(attrs)
+				form = rng.randrange(5)
+				out.append(f'\tdef get{m}(self) -> {b}:')
+				if form == 0:
+					out.append(f'\t\treturn self.{a}')
+				elif form == 1:
+					out.append(f'\t\ta = self.{a}')
+					out.append(f'\t\tb = self.plain{f} + 1')
+					out.append('\t\treturn a')
+				elif form == 2:
+					out.append(f'\t\tif self.{a} == self.{rng.choice(attrs)}:')
+					out.append(f'\t\t\treturn self.{a}')
+					out.append(f'\t\treturn self.own{f}()')
+				elif form == 3:
+					out.append(f'\t\txs = [self.{a}, self.{rng.choice(attrs)}]')
+					out.append('\t\treturn xs[0]')
+				else:
+					out.append(f'\t\tprint(self.{a}, self.plain{f})')
+					out.append(f'\t\treturn self.{a}')
+			out.append('')
+			if rng.random() < 0.5:
+				prev = name
+	return '\n'.join(out) + '\n'
+
+
+def search_semantic(ctx: Ctx) -> SearchResult:
+	"""The same law with handlers that call Reflections.type_of on every node (what py2cpp's handlers do): the nodes a
+	property yields must be the same at flattening time and at event time although the semantic services run in between."""
+	from rogw.tranp.semantics.reflections import Reflections
+	rng = ctx.sub_rng('semantic')
+	res = SearchResult('identity-valued runs whose handlers call Reflections.type_of(node) (module loaded through Modules.load): generic-class programs + real modules')
+	hist: Counter[str] = Counter()
+	sources: list[tuple[str, str]] = [(f'generic#{i}', generic_program(rng)) for i in range(ctx.scale(5, 60))]
+	curated = [os.path.join(common.REPO, f) for f in (
+		'tests/unit/rogw/tranp/semantics/fixtures/fixture_reflections.py', 'example/json.py', 'example/FW/string.py',
+		'rogw/tranp/compatible/libralies/classes.py', 'tests/unit/rogw/tranp/implements/transpiler/fixtures/fixture_evaluator.py')]
+	if ctx.thorough:
+		pool = sorted(set(glob.glob(os.path.join(common.REPO, 'example/**/*.py'), recursive=True) + glob.glob(os.path.join(common.REPO, 'tests/unit/**/fixtures/*.py'), recursive=True)))
+		curated += [f for f in pool if f not in curated]
+	curated = [c for c in curated if os.path.exists(c)]
+	if not ctx.thorough:
+		rng.shuffle(curated)
+	for f in curated[:ctx.scale(1, 14)]:
+		with open(f, encoding='utf-8') as fh:
+			sources.append((os.path.relpath(f, common.REPO), fh.read()))
+	seen: set[str] = set()
+	for name, src in sources:
+		generated = name.startswith('generic#')
+		t0 = time.time()
+		try:
+			app = common.MemApp(ctx.tmpdir())
+			ep = app.module(src).entrypoint
+			refs = app.resolve(Reflections)
+		except Exception as e:  # noqa: BLE001
+			hist[f'module load raised {canon_exc(e)}'] += 1
+			if generated:
+				# these programs are valid tranp input: loading them must succeed
+				res.findings.append(Finding(key=f'semantic-load-raises:{canon_exc(e)}', what=f'loading a generic-class program through Modules/Reflections raised {canon_exc(e)}', replay={'source_name': name, 'source': src}))
+			continue
+		seen.add(name)
+		run = SemanticRun(refs, hist)
+		try:
+			order, _ = spec_walk(ep)
+		except Exception as e:  # noqa: BLE001
+			res.findings.append(Finding(key=f'getter-raises:{canon_exc(e)}', what=f'a property getter raised {canon_exc(e)} [{name}]', replay={'source_name': name, 'source': src if generated else None}))
+			continue
+		roots = [ep] + [n for n in order if type(n).__name__ in ('Class', 'Method', 'Constructor', 'Function') and n is not ep][:ctx.scale(6 if generated else 3, 40)]
+		for n, root in enumerate(roots):
+			res.cases += 1
+			bad = run.check(root)
+			if bad is None and n == 0 and (generated or ctx.thorough):
+				bad = run.check(root)  # once more on the same Procedure, the services now warm
+			hist['trees ok' if not bad else 'trees violating'] += 1
+			if bad:
+				key, what = bad
+				res.findings.append(Finding(key=key, what=f'{what} [{name}, handlers call Reflections.type_of]',
+					replay={'source_name': name, 'root': root.full_path, 'source': src if generated else None, 'mode': 'semantic'}))
+				break
+		if len(res.samples) < 8:
+			res.samples.append({'source': name, 'visited': len(order), 'roots': len(roots), 'seconds': round(time.time() - t0, 2)})
+	res.distinct = len(seen)
+	res.histogram = dict(hist)
+	res.note = 'handlers = identity + Reflections.type_of on every node (Errors.* swallowed); law unchanged: event[k] is exactly what getattr(n, k) yields at flattening time and at event time, one final result, frames undisturbed; property walk repeated after the run'
+	return res
+
+
 def search_nested_catch(ctx: Ctx) -> SearchResult:
 	"""The hazard of failed_nested_counterexample needs a caller that catches the exception of a nested exec on the same
 	Procedure. Static scan of tranp for `try` bodies that (lexically) start such a run; replay of the witness on the real code."""
@@ -1105,7 +1280,11 @@ def run(ctx: Ctx) -> int:
 		s_gen, gen_descs = stream_generated(ctx)
 		streams = [stream_corpus(ctx), stream_synth(ctx, False), stream_synth(ctx, True), s_real, s_gen]
 	with ctx.timed('search'):
-		searches = [search_identity(ctx, real_descs, gen_descs), search_nested_catch(ctx)]
+		with ctx.timed('search_identity'):
+			s1 = search_identity(ctx, real_descs, gen_descs)
+		with ctx.timed('search_semantic'):
+			s2 = search_semantic(ctx)
+		searches = [s1, s2, search_nested_catch(ctx)]
 	return common.finish(ctx, proof, streams, searches,
 		statements=STATEMENTS,
 		partial={
@@ -1129,8 +1308,13 @@ def replay(ctx: Ctx, path: str) -> int:
 	inp = rec.get('input') or {}
 	if rec.get('kind') == 'failing-input' and inp.get('source'):
 		app = common.MemApp(ctx.tmpdir())
-		ep = load_entrypoint(app, inp['source'])
-		if ep is not None:
-			print('replay: identity oracle on the recorded source ->', identity_oracle(ep))
+		if inp.get('mode') == 'semantic':
+			from rogw.tranp.semantics.reflections import Reflections
+			ep = app.module(inp['source']).entrypoint
+			print('replay: identity + Reflections.type_of oracle on the recorded source ->', SemanticRun(app.resolve(Reflections), Counter()).check(ep))
+		else:
+			ep = load_entrypoint(app, inp['source'])
+			if ep is not None:
+				print('replay: identity oracle on the recorded source ->', identity_oracle(ep))
 	ctx2 = Ctx(PROP, rec.get('tier', 'quick'), int(rec.get('seed', 0)))
 	return run(ctx2)
